@@ -129,16 +129,23 @@ func VerifC03Concurrent(n int) {
 		verifReach("end")
 		return
 	}
+	// a few rounds each: Go's race detector (which confirms what the analysis reports) orders two
+	// accesses whenever fmt's internal printer pool happens to hand one goroutine's printer to
+	// the other, so a single round can hide a real race from it
 	done := make(chan struct{})
 	go func() {
-		_ = a.Summary()
-		_ = a.String()
-		_ = a.ToBytes()
+		for i := 0; i < 8; i++ {
+			_ = a.Summary()
+			_ = a.String()
+			_ = a.ToBytes()
+		}
 		close(done)
 	}()
-	_ = b.Summary()
-	_ = b.String()
-	_ = b.ToBytes()
+	for i := 0; i < 8; i++ {
+		_ = b.Summary()
+		_ = b.String()
+		_ = b.ToBytes()
+	}
 	<-done
 	verifReach("end")
 }
